@@ -185,6 +185,7 @@ func (wf Operation) Limit(in int) Operation {
 	return wf.When(func() bool {
 		for {
 			current := counter.Load()
+			verifAt(context.Background(), "oplimit.loaded")
 			if current >= int64(in) {
 				return false
 			}
